@@ -823,6 +823,11 @@ fn corpus() -> Vec<Case> {
     v.push(mk(0, "%start X\n%%\nX : 'a' Y 'd' | 'a' Z 'c' | 'a' T | 'b' Y 'e' | 'b' Z 'd' | 'b' T;\nY : 't' W | 'u' X;\nZ : 't' 'u';\nT : 'u' X 'a';\nW : 'u' V;\nV : ;\n", "corpus"));
     v.push(mk(2, "%start S\n%actiontype u32\n%left '+'\n%left '*'\n%%\nS: S '+' S { 1u32 } | S '*' S { 2u32 } | 'n' { 3u32 };\n", "corpus"));
     v.push(mk(3, "%start S\n%%\nS -> Result<u32, ()>: S 'a' { Ok(1u32) } | { Ok(0u32) };\n", "corpus"));
+    // tokens named ONLY in precedence declarations (never declared, never used): whatever the builder
+    // makes of them must not depend on the process; the lexer built for these sources has one rule per
+    // such name, i.e. several rules the grammar does not use
+    v.push(mk(0, "%start E\n%left 'p1' 'p2' 'p3' 'p4'\n%left 'plus'\n%nonassoc 'q1' 'q2' 'q3'\n%left 'times'\n%%\nE: E 'plus' E | E 'times' E | 'n';\n", "corpus"));
+    v.push(mk(2, "%start E\n%actiontype u32\n%right 'p1' 'p2' 'p3' 'p4' 'p5'\n%left 'plus'\n%%\nE: E 'plus' E { 1u32 } | 'n' { 2u32 };\n", "corpus"));
     for t in grammar::classics() {
         v.push(mk(0, t, "classic"));
         v.push(mk(4, &t.replacen("%%\n", "%implicit_tokens 'w0' 'w1' 'w2'\n%%\n", 1), "classic-eco"));
